@@ -443,6 +443,13 @@ func (m *monitor) compare(format string, h historySpec, sel, target string, ex e
 			m.violate(format, h, sel, target, fmt.Sprintf("panic-reading-target(%s@%s)", entryKind(n), got.Panic), detail())
 			continue
 		}
+		if !carriesKey(n, after) && !carriesKey(n, before) {
+			// "makes exactly those keys available": an entry that holds no key material before and none after
+			// (an empty key list; the shell of a ring whose keys have all been destroyed, which a public-only
+			// export carries because it has no private data; its current marker) is not a key that appeared
+			r.Count("unselected_entries_without_key_material_before_and_after", 1)
+			continue
+		}
 		if !sameLoose(got, was) {
 			changed = append(changed, entryKind(n))
 		}
@@ -463,6 +470,32 @@ func joinKinds(k []string) string {
 	}
 	sort.Strings(out)
 	return strings.Join(out, "+")
+}
+
+// carriesKey reports whether the named entry of a dump holds key material: a readable, non-empty key list; for the
+// ring-level view ("seq|state|pub|priv|sym" per key) at least one key with a readable public, private or symmetric part;
+// for a ring's current marker, whether its ring does.
+func carriesKey(name string, d *ksdump.Dump) bool {
+	name = strings.TrimSuffix(name, "#current")
+	e, ok := d.E[name]
+	if !ok || !e.OK() {
+		return false
+	}
+	if !strings.HasPrefix(name, "ring/") {
+		return len(e.Vals) > 0
+	}
+	for _, v := range e.Vals {
+		f := strings.Split(string(v), "|")
+		if len(f) < 3 {
+			return true
+		}
+		for _, part := range f[2:] {
+			if part != "" && part[0] != '!' {
+				return true
+			}
+		}
+	}
+	return false
 }
 
 func sameLoose(a, b ksdump.Entry) bool {
